@@ -10,7 +10,11 @@ Implementation-level oracle (model-free), on real subprocess runs of bin/dippy-h
   * forcing a mode never changes the verdict the same input gets without flags;
   * the working directory is the payload's top-level cwd, else tool_input.cwd, else the process's own -
     under every forced mode and auto, for all three shapes: the process runs in a project whose .dippy
-    denies the probe while the payload's directories allow / ask it, so the verdict shows which was used.
+    denies the probe while the payload's directories allow / ask it, so the verdict shows which was used;
+  * only the host-written level of the payload decides the answering host, the command and the directory (harness/hookplace.py):
+    a tool_name / command / tool_input / cwd key anywhere the host does not write it (inside tool_input, tool_response, other
+    members, near-miss spellings, ...) x what the top level holds x the three shapes + MCP x every forced mode (flags and
+    DIPPY_* variables) leaves the answer byte-for-byte what it is without that key.
 Correspondence: Model/Hook.v main == the real process on all those runs; detect_mode_from_input ==
 dippy.dippy._detect_mode_from_input over the JSON type grid; Hook.decode / Hook.conforms == the
 Python host readers on the real outputs."""
@@ -23,6 +27,7 @@ import random
 from . import core, lib
 from . import hookgen as g
 from . import hooklib as H
+from . import hookplace as P
 
 TRUSTED = [
     "Coq 8.16.1 kernel and its VM",
@@ -154,7 +159,11 @@ def run(tier, seed, replay=None):
     hm = None
     xcheck = []
     try:
-        if replay:
+        placed = None
+        if replay and replay.get("twin_case"):
+            placed = P.replay_pair(sc, out, replay, "hosts")
+            groups, singles = [], []
+        elif replay:
             groups, singles = ([("replay", [H.replay_case(sc, r) for r in replay["members"]])], []) if "members" in replay \
                 else ([], [H.replay_case(sc, replay)])
         else:
@@ -162,6 +171,13 @@ def run(tier, seed, replay=None):
         allc = [c for _, grp in groups for c in grp] + singles
         H.run_cases(sc, allc)
         hm = H.HookModel(sc)
+        if placed is not None:
+            allc = [placed]
+        elif not replay:
+            hosts = ["claude", "gemini", "cursor", "mcp"] + ["gemini:" + a for a in H.GEMINI_ALIASES]
+            place_cases, _ = P.run_placement(sc, out, tier, "hosts", hm=hm, sample_limit=50, events=("pre",), host_names=hosts,
+                                             fields=("tool_name", "command", "tool_input", "cwd"), forced=P.FORCED + P.FORCED_ENV)
+            allc = allc + place_cases
 
         def bad(what, sig, c, **more):
             out.violations.append({"kind": "hosts", "what": what, **H.describe(c, sc), **more, "signature_text": f"{sig} | {c.label}"})
@@ -261,7 +277,10 @@ def run(tier, seed, replay=None):
         "its DIPPY_* variable; singles: 8 flag subsets x 3 shapes, 9 values of each DIPPY_* variable x 3 shapes, random full "
         "combinations of flags x 3 variables x 10 values, MCP / other tools under each flag; cwd placement (top level / only in tool_input / "
         "both, different / empty or null top + tool_input / absent) x 3 shapes x {auto, 3 flags, 3 variables} with per-directory project "
-        "configs that make the verdict depend on the directory used. distinct = distinct (stdin, flags, env, "
+        "configs that make the verdict depend on the directory used; field placement (harness/hookplace.py): tool_name / command / "
+        "tool_input / cwd keys x decoy values x place (tool_input, deeper, tool_response, other object, array, nested copy, near-miss "
+        "spellings, duplicate member) x top-level state x {claude, gemini, cursor, mcp} x {auto, 3 flags, 3 variables}, in-process with "
+        "confirmation by real processes, plus a pairwise-covering sample as real processes. distinct = distinct (stdin, flags, env, "
         "config); non-trivial = a group member or a run with a flag / variable set")
     return out
 
